@@ -16,8 +16,8 @@ T = {
  "C02": dict(tech="TLC: code-shaped verifier == published relation over GF(p) (MC_Algebra, seeded-bug negatives); TLC trace validation of the library's final-MSM scalars against the published relation in 252-bit arithmetic (TraceVerify/BigField)",
              text="(a) TLC proves, exhaustively over small prime fields, that the code-shaped verifier (batched inverses, s recurrence, d by doubling, d_sum squaring trick, geometric y_sum, padding) equals weight x the published recursive zk-WIP relation on every symbol, and catches seeded coefficient bugs. (b) The unmodified library runs over a free-module group so every scalar it hands to its final multiscalar multiplication is recorded; TLC recomputes the published relation at the recorded Fiat-Shamir challenges in Z_l (BigField.tla) and requires equality on every generator, proof element and commitment, zero padding, nothing extra, and verdict == (result is identity) - for honest, altered, aggregated, promised and mixed-capacity batches. (c) every single alteration is replayed for verdict agreement.",
              ref="§6 C02"),
- "C03": dict(tech="TLA+ model of verify_batch orchestration (chunk loop, consistency, result vector) checked by TLC with negative configs and by Apalache with the chunk size symbolic; behaviours replayed at model scale and with chunks expanded to the real 256; TLC trace validation of the batch weights",
-             text="The chunk loop of verify_batch is a spec action with MaxBatch a constant; TLC checks verdict == conjunction, k aligned results and the refusal cases for every assignment of valid/invalid/disagreeing members up to 3*MaxBatch+1, and must find the violation in the two seeded-bug configurations (first chunk only; loop without whole-batch consistency). Every behaviour is replayed on the library, and again with each model chunk expanded to 256 real members so the real chunk boundaries are hit.",
+ "C03": dict(tech="TLA+ model of verify_batch orchestration (chunk loop, consistency, result vector) checked by TLC with negative configs, by Apalache with the chunk size symbolic and (thorough tier) proved for every batch and chunk size with TLAPS; behaviours replayed at model scale and with chunks expanded to the real 256; TLC trace validation of the batch weights",
+             text="The chunk loop of verify_batch is a spec action with MaxBatch a constant; TLC checks verdict == conjunction, k aligned results and the refusal cases for every assignment of valid/invalid/disagreeing members up to 3*MaxBatch+1, and must find the violation in the two seeded-bug configurations (first chunk only; loop without whole-batch consistency). Every behaviour is replayed on the library, and again with each model chunk expanded to 256 real members so the real chunk boundaries are hit. The thorough tier also discharges an inductive invariant of the same actions with the TLA+ proof system (every batch size, every chunk size), and requires the proof to fail for two seeded design defects.",
              ref="§6 C03"),
  "C04": dict(tech="TLA+ term model of the transcript (MC_Transcript, omission negatives) checked by TLC; TLC trace validation of recorded merlin operations: dependency at every challenge and single-datum perturbation pairs (TraceTranscriptPair)",
              text="(MC) a term model of the Fiat-Shamir discipline: TLC checks that every challenge depends on everything absorbed before it and that omitting any single absorption is caught. (TV-2) the unmodified library runs with an instrumented merlin; for every datum d (context, H, each G_k, n, each commitment, each promise, A, each L_j/R_j, A1, B) TLC validates a pair of recorded verifier runs differing only in d: challenge sequences equal before and ALL different from the first challenge after d (index computed by the spec). (TV-1) in hundreds of prover and verifier runs every 32-byte datum is absorbed before the challenges that must depend on it. (RP) perturbed contexts are rejected.",
